@@ -648,7 +648,7 @@ def to_sx(sc):
     key16 = sc.get("key16", b"\x01" * 16)
     c = [cfg["poll"], cfg["ping_rate"], [] if cfg["ping_timeout"] is None else [cfg["ping_timeout"]],
          1 if cfg["auto_pong"] else 0, [] if cfg["close_timeout"] is None else [cfg["close_timeout"]],
-         sc.get("accept", accept_for(key16))]
+         key16]      # the connection's 16 random bytes: the model derives the key and the expected accept value itself
     steps = []
     for st in sc.get("steps", []):
         if st[0] == "data":
